@@ -459,6 +459,15 @@ theorem inverse_unique (v : V3 ℝ) (lat lon h : ℝ) (hl1 : -90 < lat) (hl2 : l
     ecfToGeodetic false v = some ⟨lat, lon, h⟩ := by
   rw [← hv]; exact inverse_exact_on_domain lat lon h hl1 hl2 k1 k2 hh
 
+/-- **left inverse on the image of the domain**: for an ECF point that has geodetic coordinates in the domain, converting to
+    geodetic and back returns the point.  (That EVERY valid ECF point has such coordinates — surjectivity of the forward map onto
+    the region accepted by line 66 — is not proved.) -/
+theorem forward_inverse_on_image (v : V3 ℝ) (lat lon h : ℝ) (hl1 : -90 < lat) (hl2 : lat < 90) (k1 : -180 < lon) (k2 : lon ≤ 180)
+    (hh : -((cA : ℝ) * (1 - 2 * cE2)) < h) (hv : geodeticToEcfLL lat lon h = v) :
+    (ecfToGeodetic false v).map (geodeticToEcf false) = some v := by
+  rw [inverse_unique v lat lon h hl1 hl2 k1 k2 hh hv]
+  simp [geodeticToEcf, hv]
+
 /-- non-vacuity: a concrete off-axis point of the property's range -/
 example : ecfToGeodetic false (geodeticToEcfLL (34.5 : ℝ) (-118.25) 1234.5) = some ⟨34.5, -118.25, 1234.5⟩ :=
   inverse_exact_on_domain _ _ _ (by norm_num) (by norm_num) (by norm_num) (by norm_num)
